@@ -7,6 +7,7 @@
 import HSModel.Spec
 import HSModel.Proofs.RefineAll
 import HSModel.Proofs.StepLemmas
+import HSModel.Proofs.Report
 namespace HS.C02
 
 /-- every supported hashlib name is accepted unchanged (complete table) -/
@@ -174,5 +175,41 @@ theorem concrete_reports (call : Call) (st : Store) (log : List Eff) (a : Abs) (
   rw [h1]
 
 end
+
+/-- **Reported values depend only on the call, under every interleaving and every fault plan.** Any
+    number of threads running any calls, from any world, every schedule, every granularity: a
+    `store_object` that has returned normally reports the digest of its content under the store's
+    algorithm as cid, the true size, and the digests of exactly the default algorithms plus the
+    additional and checksum algorithms named in that call — whatever the other threads did. -/
+theorem store_reports_truth_under_every_interleaving (calls : List Call) (w0 : World) (fuel : Nat)
+    (sched : List Nat) (n : Nat) :
+    let cf := (runSchedule fuel { w := w0, ts := calls.map (fun c => TState.fresh (c.prog cfg o)) } sched n).1
+    ∀ (i : Nat) (v : Val) (pid : SArg) (data : DataArg) (add cks ca : SArg) (sz : IArg),
+      cf.ts[i]? = some (.finished (.ok v)) → calls[i]? = some (.storeObject pid data add cks ca sz) →
+      ReportsTruth cfg o data add cks ca (pid != .none) v := by
+  intro cf i v pid data add cks ca sz hi hc
+  have h0 : SafeConf (fun _ => True) (fun _ _ => True) (fun _ => True) (fun i => reportPost cfg o calls[i]?)
+      { w := w0, ts := calls.map (fun c => TState.fresh (c.prog cfg o)) } := by
+    refine ⟨trivial, ?_⟩
+    intro j t hj
+    simp only at hj
+    rw [List.getElem?_map] at hj
+    cases hcj : calls[j]? with
+    | none => rw [hcj] at hj; cases hj
+    | some c =>
+      rw [hcj] at hj; cases hj
+      have key : Prog.Safe (fun _ => True) (fun _ _ => True) (reportPost cfg o (some c))
+          (c.prog cfg o : Prog (Except Exc Val)) := by
+        cases c with
+        | storeObject p d a c' ca' s => exact Prog.safe_of_allEvR _ (storeObject_reports cfg o p d a c' ca' s)
+        | _ => exact Prog.safe_of_allEv _ (Prog.allEv_true _)
+      show Prog.Safe _ _ (reportPost cfg o calls[j]?) _
+      rw [hcj]; exact key
+  have hfin := safe_schedule (P := fun _ => True) (A := fun _ _ => True) (I := fun _ => True)
+    (fun _ _ _ _ => trivial) (fun _ _ _ => trivial) _ fuel sched _ n h0
+  have hq := safe_finished hfin i _ hi
+  rw [hc] at hq
+  exact hq
+
 
 end HS.C02
